@@ -32,7 +32,7 @@ func (s *verifStream) Read(p []byte) (int, error) {
 }
 func (s *verifStream) Close() error { s.closed = true; return nil }
 
-//verif:harness id=C13 tier=quick,thorough witness=end bounds="body bookkeeping: body of 0-2 symbolic bytes as a one-shot stream; GetBody in {nil, working, failing}; security none / [{A}] / [{A,B}] with an authentication callback that reads 0..len bytes of the body and a symbolic verdict; body declared required/optional as text/plain (schema string maxLength symbolic) or undeclared content type; MultiError symbolic; after ValidateRequest (nil or error) reading Request.Body to EOF yields exactly the original bytes"
+//verif:harness id=C13 tier=quick,thorough witness=end bounds="body bookkeeping: body of 0-2 symbolic bytes as a one-shot stream; validated once, or (without security, GetBody nil or working) twice in a row; GetBody in {nil, working, failing}; security none / [{A}] / [{A,B}] with an authentication callback that reads 0..len bytes of the body and a symbolic verdict; body declared required/optional as text/plain (schema string maxLength symbolic) or undeclared content type; MultiError symbolic; after ValidateRequest (nil or error) reading Request.Body to EOF yields exactly the original bytes"
 func verifH_C13_body_readable() {
 	text := verifNondetString("body", 2)
 	orig := []byte(text)
@@ -44,7 +44,8 @@ func verifH_C13_body_readable() {
 		"A": &openapi3.SecuritySchemeRef{Value: &openapi3.SecurityScheme{Type: "http", Scheme: "basic"}},
 		"B": &openapi3.SecuritySchemeRef{Value: &openapi3.SecurityScheme{Type: "http", Scheme: "bearer"}},
 	}}}
-	switch verifChoose("security", 3) {
+	sec := verifChoose("security", 3)
+	switch sec {
 	case 1:
 		op.Security = &openapi3.SecurityRequirements{{"A": {}}}
 	case 2:
@@ -54,7 +55,8 @@ func verifH_C13_body_readable() {
 	ct := []string{"text/plain", "application/x-undeclared"}[verifChoose("ct", 2)]
 	req.Header["Content-Type"] = []string{ct}
 	req.Body = &verifStream{data: orig}
-	switch verifChoose("getBody", 3) {
+	gb := verifChoose("getBody", 3)
+	switch gb {
 	case 1:
 		req.GetBody = func() (io.ReadCloser, error) { return &verifStream{data: orig}, nil }
 	case 2:
@@ -75,6 +77,10 @@ func verifH_C13_body_readable() {
 	}
 	input := &RequestValidationInput{Request: req, Route: &routers.Route{Spec: spec, PathItem: &openapi3.PathItem{Post: op}, Operation: op, Method: "POST"}, Options: opts, QueryParams: url.Values{}, PathParams: map[string]string{}}
 	_ = ValidateRequest(context.Background(), input)
+	if sec == 0 && gb != 2 && verifChoose("twice", 2) == 1 {
+		// the forwarded request is validated again (e.g. by a second middleware) before anyone reads it
+		_ = ValidateRequest(context.Background(), input)
+	}
 
 	var rest []byte
 	if req.Body != nil {
